@@ -133,9 +133,10 @@ pub fn run(args: &Args) -> i32 {
         }
         // sequence wrap inside the horizon: 254-probe rounds just below the maximum sequence
         if tier == Tier::Thorough || (matches!(cell.ports, Ports::None) && !cell.v6) || (cell.strategy == MultipathStrategy::Dublin && cell.v6) {
-            for init in [63999u16, 64511] {
+            // 64511: the allocator wraps after two rounds; 63999: after five (thorough only)
+            for (init, rounds) in if tier == Tier::Thorough { vec![(63999u16, 7usize), (64511, 4)] } else { vec![(64511u16, 4usize)] } {
                 let mut p = TraceParams::default();
-                p.rounds = 4;
+                p.rounds = rounds;
                 p.initial_sequence = init;
                 p.max_ttl = 254;
                 p.max_inflight = 255;
@@ -180,14 +181,24 @@ pub fn run(args: &Args) -> i32 {
         p.packet_size = if cell.v6 { 96 } else { 84 };
         tasks.push((Task { cell, topo: "far-target-late", params: p, bound: 1 }, 1));
     }
+    // the long tasks (254 probes per round: ~1000 choice points) are split into 16 disjoint shards
+    // each (partition by the position of the first deviation), the short ones run whole
+    let sharded: Vec<(Task, u16, usize, usize)> = tasks
+        .iter()
+        .flat_map(|(t, d)| {
+            let n = if t.params.max_ttl == 254 { 16 } else { 1 };
+            (0..n).map(move |k| (t.clone(), *d, k, n))
+        })
+        .collect();
     let agg = Mutex::new(Agg::default());
     let max_points = 1500;
-    mc::par_for(tasks.len(), mc::workers(), |ti| {
-        let (t, delta) = &tasks[ti];
+    mc::par_for(sharded.len(), mc::workers(), |ti| {
+        let (t, delta, shard, nshards) = &sharded[ti];
+        let (shard, nshards) = (*shard, *nshards);
         let mut local = Agg::default();
         let mut digests: HashSet<u64> = HashSet::new();
         let mut first = true;
-        let stats = mc::explore(t.bound, max_points, &mut |ch| {
+        let stats = mc::explore_shard(t.bound, max_points, shard, nshards, &mut |ch| {
             let c = std::mem::replace(ch, Chooser::new(&[], 0));
             let o = run_once(t, *delta, false, c);
             *ch = o.world.chooser.clone();
